@@ -17,6 +17,8 @@
  *        b NON GET /b (large body, block 0)   n NON GET /b Block2 num 1
  *        B NON GET /b Block2 num 1 with an ETag that does not match
  *        x 3-byte runt         v wrong protocol version     e empty CON (ping)
+ *        m NON GET /r sent to the multicast address 224.0.1.187 (response delayed by a queue
+ *          node for a random leisure time)
  *   ack:<p> rst:<p>   ACK / RST for the oldest unanswered CON the server sent to p
  *   ref:<p> rel:<p>   the driver takes / drops an application reference on p's session
  *   relall            the driver drops every application reference it holds
@@ -330,11 +332,19 @@ static size_t mk_request(uint8_t *b, int p, int con, const char *path, int obser
   return n;
 }
 
-static void inject(int p, const uint8_t *b, size_t n) {
-  coap_address_t src;
+static void inject_to(int p, const uint8_t *b, size_t n, int mcast) {
+  coap_address_t src, local;
   addr_of_key(&src, p);
-  vn_inject_ep(g_ctx, g_ep, &src, NULL, b, n);
+  if (mcast) {   /* All CoAP Nodes 224.0.1.187, the endpoint's port */
+    vn_addr4(&local, 0xe00001bbu, ntohs(g_ep->bind_addr.addr.sin.sin_port));
+    vn_inject_ep(g_ctx, g_ep, &src, &local, b, n);
+  } else {
+    vn_inject_ep(g_ctx, g_ep, &src, NULL, b, n);
+  }
   emit("P:%llu", (unsigned long long)vn_now);
+}
+static void inject(int p, const uint8_t *b, size_t n) {
+  inject_to(p, b, n, 0);
 }
 
 static coap_session_t *live_session_of(int p) {
@@ -446,6 +456,7 @@ static void run_history(void) {
       int p = atoi(op + 3);
       char *c = strchr(op + 3, ':');
       char k = c ? c[1] : 'g';
+      int mc = 0;
       if (p < 0 || p >= MAXP) continue;
       switch (k) {
       case 'g': n = mk_request(b, p, 0, "r", -1, -1, -1); break;
@@ -460,6 +471,7 @@ static void run_history(void) {
       case 'b': n = mk_request(b, p, 0, "b", -1, -1, -1); break;
       case 'n': n = mk_request(b, p, 0, "b", -1, 1, -1); break;
       case 'B': n = mk_request(b, p, 0, "b", -1, 1, 0x7777); break;
+      case 'm': n = mk_request(b, p, 0, "r", -1, -1, -1); mc = 1; break;
       case 'x': b[0] = 0x40; b[1] = 1; b[2] = 0; n = 3; break;
       case 'v': n = mk_request(b, p, 0, "r", -1, -1, -1); b[0] = (uint8_t)((b[0] & 0x3f) | 0x80); break;
       case 'e': {
@@ -469,7 +481,7 @@ static void run_history(void) {
       }
       default: n = mk_request(b, p, 0, "r", -1, -1, -1); break;
       }
-      inject(p, b, n);
+      inject_to(p, b, n, mc);
     } else if (!strncmp(op, "ack:", 4) || !strncmp(op, "rst:", 4)) {
       int p = atoi(op + 4);
       if (p < 0 || p >= MAXP) continue;
